@@ -552,12 +552,15 @@ def shrink(vd, docs, members):
     return eng, d, sym, det
 
 
-def run_stream(vd, tier, log=None):
+def run_stream(vd, tier, coqdir=None, workdir=None):
     """runs witnesses + matrix; returns (stats, findings).  A finding: dict with class, count, members, the minimal
     document, engine, symptom, detail, replay_cmd"""
     t0 = time.time()
     docs = corpus_docs() + gen_docs(tier)
     res = run_docs(vd, docs)
+    if any(a.startswith('ERR unknown command') for a in res.values()):
+        import vlib
+        raise vlib.BuildError('the driver %s has no c07run command (harness/vd_c07.cpp not linked)' % vd)
     verdicts = {k: judge(docs[k[1]], a) for k, a in res.items()}
     # a verdict that depends on timing (threads of invoked sessions, timers) is confirmed by a second run
     again = sorted(set(i for (e, i), v in verdicts.items() if v and docs[i]['threaded'] and v[0][0] in ('event-lost', 'hang', 'interpreter-stuck')))
@@ -581,14 +584,131 @@ def run_stream(vd, tier, log=None):
                          'members': sorted(set('%s/%s/%s/%s/%s:%s' % (e, docs[i]['site'], docs[i]['kind'], docs[i]['dm'], docs[i]['fault'], s)
                                                for e, i, s, _ in members))[:40],
                          'replay_cmd': replay_cmd(eng, d)})
+    model = {'compared': 0, 'disagreements': 0, 'variant': None}
+    mdis = []
+    if coqdir:
+        switches, ncmp, dis = model_correspondence(docs, res, verdicts, coqdir, workdir)
+        model = {'compared': ncmp, 'disagreements': len(dis), 'variant': switches}
+        for eng, i, p, o in sorted(dis, key=lambda x: len(docs[x[1]]['xml']))[:3]:
+            d = docs[i]
+            mdis.append({'class': 'model-disagreement', 'count': len(dis), 'engine': eng, 'site': d['site'], 'block': d['kind'],
+                         'datamodel': d['dm'], 'fault': d['fault'], 'document': d['xml'], 'items': d['items'],
+                         'model_actions': model_term(d), 'model_variant': switches,
+                         'expected': 'ExecFaults.outcomes predicts class %d (0 no error, 1 error event, 2 escaped)' % p,
+                         'observed': 'class %d: %s' % (o, res[(eng, i)][:300]), 'oracle_failure': bool(verdicts[(eng, i)]),
+                         'replay_cmd': replay_cmd(eng, d)})
     nfault = [d for d in docs if not d['control']]
     stats = {'documents': len(docs), 'witnesses': sum(1 for d in docs if d.get('corpus')), 'controls': sum(1 for d in docs if d['control']),
              'runs': len(res), 'engines': list(ENGINES),
-             'sites': len(set(d['site'] for d in nfault)), 'block_kinds': len(set(d['kind'] for d in nfault if d['site'] in SITE)),
+             'sites': len(set(d['site'] for d in nfault)), 'block_kinds': len(set(d['kind'] for d in nfault if d['kind'] in KINDS)),
              'fault_kinds': {dm: len(set(d['fault'] for d in nfault if d['dm'] == dm)) for dm in ('lua', 'promela')},
              'site_x_block_x_fault_x_datamodel': len(set((d['site'], d['kind'], d['fault'], d['dm']) for d in nfault)),
              'runs_with_error_event': sum(1 for k, a in res.items() if not a.startswith(('CRASH', 'HANG', 'EXC', 'ERR')) and
                                           any(e.startswith('error.') for e in parse(a)[0])),
              'failing_runs': sum(1 for v in verdicts.values() if v), 'classes': {f['class']: f['count'] for f in findings},
-             'seconds': round(time.time() - t0, 1)}
-    return stats, findings
+             'model': model, 'seconds': round(time.time() - t0, 1)}
+    return stats, findings + mdis
+
+
+# ------------------------------------------------------------------ correspondence with ExecFaults.v
+
+SWITCH_WITNESS = [   # switch of fx_variant, witness of the corpus, symptom that means "defect present"
+    ('fx_finalize_unguarded', 'finalize-failing-assign', 'exception'),
+    ('fx_send_content_lazy', 'send-content-expr-syntax', 'exception'),
+    ('fx_donedata_content_lazy', 'donedata-content-expr-runtime', 'exception'),
+    ('fx_timer_unguarded', 'delayed-send-to-missing-parent', 'crash'),
+    ('fx_invoke_error_only_logged', 'invoke-typeexpr-syntax', 'no-error-event'),
+]
+_TARGET = {'no-parent': 'TParent', 'no-session': '(TSession 7)', 'no-invoker': '(TInvoked 7)', 'control': 'TInternal'}
+
+
+def model_term(d):
+    """the action sequence of ExecFaults.v that a matrix document exercises (None: outside the model)"""
+    if d.get('corpus'):
+        return None
+    r = '(VOk 1)' if d['control'] else ('VSyntax' if d['fault'] == 'syntax' else 'VRuntime')
+    site, kind = d['site'], d['kind']
+    if kind == 'finalize':
+        if site not in ('assign-expr', 'log-expr'):
+            return None
+        return '[ASend ev_x TSelf [] None; ADequeueExt (Some [ILog 1 %s])]' % ('(INum 1)' if d['control'] else 'IBad')
+    if site == 'send-content-expr':
+        return '[ASend ev_x TSelf [] (Some %s); ADequeueExt None]' % r
+    if site in ('send-param-expr', 'send-param-location', 'send-namelist'):
+        return '[ASend ev_x TSelf [%s] None; ADequeueExt None]' % r
+    if site == 'send-undeliverable':
+        return '[ASend ev_x %s [] None]' % _TARGET[d['fault']]
+    if site == 'send-undeliverable-delayed':
+        return '[ADelayedSend ev_x %s [] None; ATimer 0; ADequeueInt]' % _TARGET[d['fault']]
+    if site in ('donedata-param-expr', 'donedata-param-location'):
+        return '[ADone ev_x [%s] None; ADequeueInt; ADequeueInt]' % r
+    if site == 'donedata-content-expr':
+        return '[ADone ev_x [] (Some %s); ADequeueInt; ADequeueInt]' % r
+    if site == 'invoke-type':
+        return '[AInvoke 1 [] %s]' % ('true' if d['control'] else 'false')
+    if site.startswith('invoke-'):
+        return '[AInvoke 1 [%s] true]' % r
+    return None
+
+
+def observed_class(ans):
+    """0 = no error, 1 = error event processed, 2 = exception out of step() / process died"""
+    if ans.startswith(('CRASH', 'HANG', 'EXC', 'ERR')):
+        return 2
+    evs, rets, exc, waits = parse(ans)
+    if exc:
+        return 2
+    return 1 if any(e.startswith('error.') for e in evs) else 0
+
+
+def model_predictions(coqdir, workdir, switches, terms):
+    """evaluates the extracted... no: evaluates ExecFaults.outcomes with coqc (vm_compute) on the given action sequences;
+    returns the list of predicted classes"""
+    import re
+    os.makedirs(workdir, exist_ok=True)
+    src = ['From V Require Import Base Chart Exec ExecFaults.', 'Local Open Scope N_scope.',
+           'Definition ev_x : bytes := [120].',
+           'Definition env0 : fenv := {| env_parent := false; env_sessions := [] |}.',
+           'Definition vv : fx_variant := {| %s |}.' % '; '.join('%s := %s' % (k, 'true' if switches[k] else 'false') for k, _, _ in SWITCH_WITNESS),
+           'Definition cls (l : list outcome) : nat :=',
+           '  if existsb (fun o => match o with Escaped => true | _ => false end) l then 2%nat',
+           '  else if existsb (fun o => match o with ErrRaised => true | _ => false end) l then 1%nat else 0%nat.',
+           'Definition cases : list (list action) := [', ';\n'.join(terms), '].',
+           'Eval vm_compute in map (fun l => cls (outcomes vv env0 (fun _ => false) l fstate0)) cases.']
+    f = os.path.join(workdir, 'C07FaultsEval.v')
+    open(f, 'w').write('\n'.join(src) + '\n')
+    p = subprocess.run('timeout 600 coqc -R %s V -R . C07Tmp C07FaultsEval.v' % coqdir, shell=True, cwd=workdir,
+                       stdout=subprocess.PIPE, stderr=subprocess.STDOUT)
+    out = p.stdout.decode('utf-8', 'replace')
+    if p.returncode != 0:
+        raise RuntimeError('ExecFaults.v could not be evaluated: ' + out[-1500:])
+    m = re.search(r'=\s*\[(.*?)\]\s*:\s*list nat', out, flags=re.S)
+    if not m:
+        raise RuntimeError('unexpected coqc output: ' + out[-800:])
+    body = m.group(1).strip()
+    vals = [int(x) for x in re.findall(r'\d+', body)]
+    if len(vals) != len(terms):
+        raise RuntimeError('%d predictions for %d cases' % (len(vals), len(terms)))
+    return vals
+
+
+def model_correspondence(docs, res, verdicts, coqdir, workdir):
+    """the implementation's run of every document that ExecFaults.v covers against the model's prediction, for the
+    variant the witnesses select.  returns (switches, compared, disagreements [(engine, i, predicted, observed)])"""
+    by_name = {d['corpus']: i for i, d in enumerate(docs) if d.get('corpus')}
+    switches = {}
+    for sw, wit, sym in SWITCH_WITNESS:
+        v = verdicts.get(('large', by_name[wit]), [])
+        switches[sw] = bool(v) and v[0][0] == sym
+    idx = [i for i, d in enumerate(docs) if model_term(d) is not None]
+    pred = model_predictions(coqdir, workdir, switches, [model_term(docs[i]) for i in idx])
+    dis = []
+    n = 0
+    for i, p in zip(idx, pred):
+        for eng in ENGINES:
+            if (eng, i) in res:
+                n += 1
+                o = observed_class(res[(eng, i)])
+                if o != p:
+                    dis.append((eng, i, p, o))
+    return switches, n, dis
